@@ -9,6 +9,9 @@ Parts:
      monitors only ("observable").
   C  exploration of the real code with real threads (hook off): general_threaded<>, signal_buffered<> (cannot run
      under the baton scheduler) and the default general_instant<> / general_buffered<> (std::mutex): monitors only.
+  D  general_threaded< Buffer, spin lock, wrapped dispose_thread, empty back-off > under the baton scheduler with the
+     reclamation thread unscheduled, aimed run-to-a-point schedules (checks/C04_gpt.py, harness/C04/gpt_sched.cpp):
+     monitors only.
 """
 import os, json, subprocess, time
 import vcheck, conc_check
